@@ -935,6 +935,21 @@ fn main() {
     let mut args = parse_args();
     std::fs::create_dir_all(&args.work).unwrap();
     let _ = std::fs::set_permissions(&args.work, std::fs::Permissions::from_mode(0o755));
+    // the process' current directory is a scratch directory of its own: whatever a (broken) library does relative to
+    // AT_FDCWD lands there and not in the checker's tree
+    {
+        let cwd = args.work.join(format!("cwd_{}", std::process::id()));
+        let _ = std::fs::create_dir_all(&cwd);
+        let _ = std::fs::set_permissions(&cwd, std::fs::Permissions::from_mode(0o777));
+        // (the job and result paths are given as absolute paths by the checker; relative ones are resolved first)
+        args.job = std::fs::canonicalize(&args.job).unwrap_or(args.job.clone());
+        if let Some(parent) = args.out.parent() {
+            if let Ok(p) = std::fs::canonicalize(if parent.as_os_str().is_empty() { Path::new(".") } else { parent }) {
+                args.out = p.join(args.out.file_name().unwrap());
+            }
+        }
+        let _ = std::env::set_current_dir(&cwd);
+    }
     // job and result files are opened before privileges are dropped
     let f = std::fs::File::open(&args.job).expect("open job file");
     let mut outf = std::io::BufWriter::new(std::fs::File::create(&args.out).expect("create out file"));
